@@ -15,8 +15,13 @@ Vocabulary (all defined in the model / proof files):
    Without it the statements are false of the current code: findings F17a / F17b.
  * `Visible h cfg src p rel node` — `rel` leads from the directory `p` through real directories that
    are neither secret mounts nor mount points to the entry `node`.
+ * `FragsCompat fs` — no two items of manifest text contradict each other (a file's path is a prefix
+   of another item's path only if that item is the same file named again); `Site h cfg D y` — the
+   places where the specification has a mounted collection extracted; `SpecCompat` — the items the
+   specification names are pairwise compatible; `CollsWF`, `SitesApart` — every mounted collection
+   is a tree, and contributing sites do not overlap (Proofs/C17_Load.lean, C17_Sites.lean).
 -/
-import ArvVerif.Proofs.C17_NoCollide
+import ArvVerif.Proofs.C17_Sites
 set_option linter.unusedSimpArgs false
 namespace ArvVerif.C17
 
@@ -431,6 +436,62 @@ theorem C17_output_equals_tree_general (h : Host) (cfg : Cfg) (hwf : HostWF h) (
         simp only [Option.some.injEq] at hx'
         exact ⟨hc.1, hc.2, hx'.symm⟩
       · right; right; exact hx'
+
+/-! ## when the mounted content loads (the hypothesis `loadFrags … = some t0`) -/
+
+/-- **`loadManifest` characterised**: manifest text loads into an empty collection exactly when no
+two of its items contradict each other — a file item whose path is a proper prefix of another
+item's path, or a file item and a directory marker at the same path; the same file named twice is
+fine (its segments are appended) -/
+theorem C17_manifest_loads_iff (fs : List Frag) : (∃ t0, loadFrags [] fs = some t0) ↔ FragsCompat fs :=
+  loadFrags_iff fs
+
+/-- **the collected manifest text loads exactly when the specification's items are compatible**:
+for a successful scan, the hypothesis `loadFrags [] plan.frags = some t0` of the equality theorems
+is equivalent to a statement about the specification alone (`Shows`, the mounts and their
+collections) — neither the plan nor the order of the items appears in it -/
+theorem C17_frags_load_iff (h : Host) (cfg : Cfg) (hwf : HostWF h) (wf : CfgWF h cfg)
+    (hout : h.get cfg.hostOut = some .dir) (hs : supported cfg = true) (hx : InOut cfg cfg.ctrOut)
+    (hdirect : Direct h cfg) (fuel : Nat) (plan : Plan) (hscan : scan h cfg fuel = .ok plan) :
+    (∃ t0, loadFrags [] plan.frags = some t0) ↔ SpecCompat h cfg :=
+  scan_load_iff h cfg hwf wf hout hs hx hdirect fuel plan hscan
+
+/-- … which holds when every mounted collection is a tree (`CollsWF`: no path is both a file and a
+directory — what the API server accepts) and the mounts do not overlap (`SitesApart`) -/
+theorem C17_frags_load_apart (h : Host) (cfg : Cfg) (hwf : HostWF h) (wf : CfgWF h cfg)
+    (hout : h.get cfg.hostOut = some .dir) (hs : supported cfg = true) (hx : InOut cfg cfg.ctrOut)
+    (hdirect : Direct h cfg) (hc : CollsWF cfg) (ha : SitesApart h cfg)
+    (fuel : Nat) (plan : Plan) (hscan : scan h cfg fuel = .ok plan) :
+    ∃ t0, loadFrags [] plan.frags = some t0 :=
+  (scan_load_iff h cfg hwf wf hout hs hx hdirect fuel plan hscan).mpr (specCompat_of_apart h cfg hc ha)
+
+/-- **output equals tree for mounts that do not overlap** — no hypothesis about loading is left:
+well-formed tree and configuration, canonical link targets (`Direct`), real mount points
+(`MountsReal`), tree-shaped collections, non-overlapping sites: whenever the scan succeeds, `Copy`
+succeeds and saves exactly what `Shows` derives plus the content `t0` of the mounted collections
+(which items: `C17_mount_content_partial`) -/
+theorem C17_output_equals_tree_apart (h : Host) (cfg : Cfg) (hwf : HostWF h) (wf : CfgWF h cfg)
+    (hout : h.get cfg.hostOut = some .dir) (hs : supported cfg = true) (hx : InOut cfg cfg.ctrOut)
+    (hdirect : Direct h cfg) (mr : MountsReal h cfg) (hc : CollsWF cfg) (ha : SitesApart h cfg)
+    (fuel : Nat) (plan : Plan) (hscan : scan h cfg fuel = .ok plan) :
+    ∃ t0, loadFrags [] plan.frags = some t0 ∧ OutputEqualsTree h cfg fuel t0 := by
+  obtain ⟨t0, hl⟩ := C17_frags_load_apart h cfg hwf wf hout hs hx hdirect hc ha fuel plan hscan
+  exact ⟨t0, hl, C17_output_equals_tree_mounts_real h cfg hwf wf hout hs hx hdirect mr fuel plan hscan t0 hl⟩
+
+/-- conversely, when the items the specification names contradict each other (two overlapping
+mounts with a file of one where the other has a directory), `Copy` fails with the collection
+filesystem's error: nothing is saved, nothing is dropped silently -/
+theorem C17_frags_conflict_fails (h : Host) (cfg : Cfg) (hwf : HostWF h) (wf : CfgWF h cfg)
+    (hout : h.get cfg.hostOut = some .dir) (hs : supported cfg = true) (hx : InOut cfg cfg.ctrOut)
+    (hdirect : Direct h cfg) (hnc : ¬ SpecCompat h cfg)
+    (fuel : Nat) (plan : Plan) (hscan : scan h cfg fuel = .ok plan) : copy h cfg fuel = .err .fs := by
+  have hno : loadFrags [] plan.frags = none := by
+    cases hl : loadFrags [] plan.frags with
+    | none => rfl
+    | some t0 => exact absurd ((scan_load_iff h cfg hwf wf hout hs hx hdirect fuel plan hscan).mp ⟨t0, hl⟩) hnc
+  unfold copy
+  rw [hscan]
+  simp [Res.bind, runPlan, hno]
 
 /-- the full statement: the same for every host tree, without `Direct` -/
 def C17_output_equals_tree_Full : Prop :=
